@@ -223,6 +223,17 @@ def adversarial_vec_jobs(rnd, quick):
         calls.append({"op": "summary", "obj": "V"})
         calls.append({"op": "collect", "obj": "V"})
         jobs.append({"id": "adv-%s" % "-".join(names), "calls": calls, "names": names, "flavour": fl, "tuples": tuples, "refused": refused})
+        if fl in ("counter", "histogram"):
+            # the same pool through ONE local vector handle (its per-handle cache is keyed like the shared map), flushed once at the end
+            lupd = "lv_observe" if fl == "histogram" else "lv_inc_by"
+            lcalls = [{"op": fl + "_vec", "as": "V", "opts": {"name": "m", "help": "h"}, "labels": names}, {"op": "local", "of": "V", "as": "W"}]
+            for t in tuples:
+                lcalls.append({"op": lupd, "obj": "W", "vals": list(t), "v": 1})
+            lcalls += [{"op": "lflush", "obj": "W"}, {"op": "summary", "obj": "V"}]
+            for t in tuples:
+                lcalls.append({"op": lupd, "obj": "W", "vals": list(t), "v": 1})
+            lcalls += [{"op": "lflush", "obj": "W"}, {"op": "summary", "obj": "V"}, {"op": "collect", "obj": "V"}]
+            jobs.append({"id": "adv-local-%s" % "-".join(names), "calls": lcalls, "names": names, "flavour": fl, "tuples": tuples, "refused": [], "local": True})
     return jobs
 
 
@@ -238,7 +249,10 @@ def judge_adversarial(ctx, j, rs, prefix):
             j["flavour"], names, n, i, json.dumps(j["calls"][i])[:200], "must be refused with Err" if i in refused else "failed", json.dumps(x)[:200]), {"calls": [j["calls"][0], j["calls"][i]]})
         return False
     nr = len(refused)
-    s1, s2 = summary_of(rs[2 * n + 1 + nr]), summary_of(rs[4 * n + 2 + nr])
+    if j.get("local"):
+        s1, s2 = summary_of(rs[n + 3]), summary_of(rs[2 * n + 5])
+    else:
+        s1, s2 = summary_of(rs[2 * n + 1 + nr]), summary_of(rs[4 * n + 2 + nr])
     ok1 = all((s1.get(k, {}).get("i") if isinstance(s1.get(k), dict) else s1.get(k)) == v for k, v in {"samples": n, "distinct": n, "min": 1, "max": 1}.items())
     ok2 = all((s2.get(k, {}).get("i") if isinstance(s2.get(k), dict) else s2.get(k)) == v for k, v in {"samples": n, "distinct": n, "min": 2, "max": 2}.items())
     if ok1 and ok2:
@@ -256,7 +270,7 @@ def judge_adversarial(ctx, j, rs, prefix):
     for t in (missing[:1] + heavy[:1]):
         calls += [{"op": "with", "vec": "V", "vals": list(t), "as": "c"}, {"op": "inc" if j["flavour"] != "histogram" else "observe", "obj": "c", "v": 1}]
     calls.append({"op": "collect", "obj": "V"})
-    ctx.violation(prefix + ":tuples-share-a-child", "%s vector with label names %s: %d distinct tuples were requested (positional form, then map form) and updated once each time; the vector holds %s children "
+    ctx.violation(prefix + ":tuples-share-a-child", "%s vector with label names %s" + (" (through one LOCAL vector handle, flushed)" if j.get("local") else "") + ": %d distinct tuples were requested (positional form, then map form) and updated once each time; the vector holds %s children "
                   "(min %s, max %s after the first pass); e.g. tuple %r has no child of its own and tuple %r was updated for it" % (
                       j["flavour"], names, n, s2.get("samples"), s1.get("min"), s1.get("max"), missing[:1], heavy[:1]), {"calls": calls})
     return False
